@@ -1134,21 +1134,32 @@ def must_call_census(ctx, crate, files):
 
 
 def self_symmetry_sites(crate):
-    """[(root function, call site of Group::add on a class's group)] outside the leader union and the slot-set writers; a
-    single-use private helper that holds the call (the tail of the deriver's loop extracted) is seen through its caller"""
+    """[(root function, call site of Group::add on a class's group)] outside the leader union and the slot-set writers.  The
+    root is the innermost function that (with its single-use helpers spliced in) both enumerates group-compatible variants and
+    adds to a class group: a helper holding only the tail of the loop (add_self_symmetry) is seen through its caller, and a
+    caller that merely absorbs the whole deriver (handle_pending, rebuild) is not taken for it"""
     key = "self_symmetry_sites"
     if key in crate._cache:
         return crate._cache[key]
     sw = set(slot_writers(crate))
     leaders = set(leader_union_functions(crate)) | set(leader_helpers(crate))
-    pol = mir.default_inline_policy(crate)
-    out = []
+    cands = {}
     for b in crate.fns():
-        if b.id in leaders or b.id in sw or b.id in pol:
+        if b.id in leaders or b.id in sw:
             continue
         v = mir.inline_view(crate, b, keep=tuple(sorted(leaders | sw)))
-        for c in v.all_calls():
-            if c.callee and c.callee.is_("add", "group::Group") and c.args and mir.role_mentions_field(c.body.role_of_operand(c.args[0]), "classes") and not c.body.blocks[c.bb]["cleanup"]:
-                out.append((b, c))
+        adds = [c for c in v.all_calls() if c.callee and c.callee.is_("add", "group::Group") and c.args and mir.role_mentions_field(c.body.role_of_operand(c.args[0]), "classes") and not c.body.blocks[c.bb]["cleanup"]]
+        if not adds:
+            continue
+        has_var = any(c.callee and "variants" in (c.callee.name or "") for c in v.all_calls())
+        cands[b.id] = (b, v, adds, has_var)
+    full = {k for k, x in cands.items() if x[3]} or set(cands)
+    # drop outer wrappers: a candidate whose view spliced in another full candidate
+    inner = {k for k in full if not any(o in getattr(cands[k][1], "inlined", []) for o in full if o != k)}
+    out = []
+    for k in sorted(inner):
+        b, v, adds, _ = cands[k]
+        for c in adds:
+            out.append((b, c))
     crate._cache[key] = out
     return out
